@@ -269,6 +269,9 @@ func propMain(id string, args []string) int {
 		exit = 2
 	}
 	verdict := "holds within the stated bounds"
+	if len(knownSeen) > 0 {
+		verdict = "no violation other than the listed known findings"
+	}
 	switch exit {
 	case 1:
 		verdict = "violation"
